@@ -433,7 +433,15 @@ pub fn run_open_race(cfg: &RunCfg, _replay: Option<&[Step]>) -> RunOutput {
             seam::set_time(T0);
             simhook::install(0xAB00 + tid as u64);
             let s2 = sched.clone();
-            mdk_sqlite_storage::verif::set_thread_hook(Some(Box::new(move |_p| s2.yield_point(tid))));
+            // not a scheduling point: the commits inside the migration runner. A thread parked there
+            // holds SQLite's write lock, and the other openers would sit out SQLite's busy timeout
+            // in real time and fail with 'database is locked' - a stall longer than the timeout,
+            // which is not the subject here (see DESIGN, limits)
+            mdk_sqlite_storage::verif::set_thread_hook(Some(Box::new(move |p| {
+                if !matches!(p, mdk_sqlite_storage::verif::Point::Open(l) if l.starts_with("migrate:")) {
+                    s2.yield_point(tid)
+                }
+            })));
             sched.yield_point(tid);
             let res = std::panic::catch_unwind(std::panic::AssertUnwindSafe(|| MdkSqliteStorage::new(&path, &svc, "k")));
             let r = match res {
@@ -442,7 +450,7 @@ pub fn run_open_race(cfg: &RunCfg, _replay: Option<&[Step]>) -> RunOutput {
                     let ok = apply(&st, &StOp::SaveGroup { g: tid as u8 % 4, nostr: tid as u8 % 4, name: 1, epoch: 1, state: 0, admins: 1, last: None, su: 0 }, T0) != "err";
                     Ok(ok)
                 }
-                Ok(Err(e)) => Err(e.to_string().chars().take(80).collect()),
+                Ok(Err(e)) => Err(e.to_string().chars().take(200).collect()),
                 Err(p) => Err(format!("PANIC {}", seam::panic_msg(&p))),
             };
             mdk_sqlite_storage::verif::set_thread_hook(None);
@@ -473,7 +481,7 @@ pub fn run_open_race(cfg: &RunCfg, _replay: Option<&[Step]>) -> RunOutput {
     let res = results.lock().unwrap().clone();
     let trace = sched.m.lock().unwrap().trace.clone();
     for (t, r) in &res {
-        out.log.push(format!("opener {t}: {}", match r { Ok(b) => format!("opened usable={b}"), Err(_) => "refused".to_string() }));
+        out.log.push(format!("opener {t}: {}", match r { Ok(b) => format!("opened usable={b}"), Err(e) => format!("refused: {e}") }));
     }
     out.log.push(format!("schedule {:?}", trace));
     let opened = res.iter().filter(|(_, r)| matches!(r, Ok(true))).count();
@@ -481,6 +489,12 @@ pub fn run_open_race(cfg: &RunCfg, _replay: Option<&[Step]>) -> RunOutput {
         if let Err(e) = r {
             if e.starts_with("PANIC") {
                 out.violations.push(Violation { property: "C19".into(), clause: "panic".into(), step: None, node: None, detail: format!("opener {t}: {e}"), known: None });
+            } else {
+                // in every sequential order of these calls each of them succeeds: the first
+                // creates file and key, the others find both
+                *out.probes.entry("opener_refused".into()).or_insert(0) += 1;
+                let known = if !multi_path && e.contains("without encryption") { Some("KF-C19-1".to_string()) } else { None };
+                out.violations.push(Violation { property: "C19".into(), clause: "concurrent-first-open-refused".into(), step: None, node: None, detail: format!("opener {t} of {n_threads} ({}) was refused: {e}", if multi_path { "own path, shared keyring entry" } else { "same path" }), known });
             }
         }
         if let Ok(false) = r {
